@@ -1104,11 +1104,16 @@ func (pool *TxPool) demoteUnexecutables() {
 			log.Trace("Demoting pending transaction", "hash", hash)
 			pool.enqueueTx(hash, tx)
 		}
-		// If there's a gap in front, warn (should never happen) and postpone all transactions
-		if list.Len() > 0 && list.txs.Get(nonce) == nil {
-			for _, tx := range list.Cap(0) {
+		// If there's a gap (in front, or further up after a reorg re-injected only a part of the
+		// dropped transactions), postpone everything behind it
+		executable := 0
+		for list.txs.Get(nonce+uint64(executable)) != nil {
+			executable++
+		}
+		if list.Len() > executable {
+			for _, tx := range list.Cap(executable) {
 				hash := tx.Hash()
-				log.Error("Demoting invalidated transaction", "hash", hash)
+				log.Debug("Demoting invalidated transaction", "hash", hash)
 				pool.enqueueTx(hash, tx)
 			}
 		}
